@@ -919,9 +919,16 @@ class C08(SimCheck):
                   "over every reachable trace (handled = executed deliveries; created = executed + queued; created copies for a "
                   "node <= accepted sends to it + broadcasts by others, for every medium; equality and exactly-once under the "
                   "loss-free, in-range hypotheses). Tied to the code by differential execution.")
-    rule = ("2-5 nodes all in range, loss-free medium, delays in {0, 1 tick, several}, sends/broadcasts (incl. to self, "
-            "unknown, None) from initialize, timer, packet and telemetry handlers; non-trivial = >= 3 nodes, >= 1 broadcast, "
-            ">= 2 messages in flight at once")
+    rule = ("2-5 nodes, loss-free medium, delays in {0, 1 tick, several}, sends/broadcasts (incl. to self, unknown, None) "
+            "from initialize, timer, packet and telemetry handlers; 60% of the scenarios with an unlimited range (all in "
+            "range), 40% with ranges changed at run time through the real CommunicationController between values that cover "
+            "everybody and values that cover few or nobody, starting from an unlimited or a short medium range: a copy is "
+            "'in range' when the exact squared distance at the send (positions sampled by the harness through get_node) is "
+            "below the square of the sender's current range by more than 1e-6 (or exactly equal on the integer lattice) and "
+            "only such copies are owed a delivery; non-trivial = >= 3 nodes, >= 1 broadcast, >= 2 messages in flight at once")
+    assumptions = ["loss-free medium (C10 covers loss)",
+                   "whether a copy OUT of range is withheld is C09's subject: here such a copy may or may not arrive, but never "
+                   "at a node it was not addressed to, never twice and never at another time than send + delay"]
     force_cfg = {"hasComm": True, "failRate": fbits(0.0), "defaultRange": fbits(1.0e6), "hasTimer": True}
     profile = {"w": {"setTimer": 3, "cancelTimer": 0, "send": 5, "broadcast": 3, "goto": 0.5, "setSpeed": 0.2,
                      "setRange": 0, "gotoGeo": 0}, "pBadDst": 0.2, "maxReq": 4, "budget": 70}
@@ -934,15 +941,113 @@ class C08(SimCheck):
         cfg["maxIter"] = None
         if cfg["hasMob"] and cfg["duration"] is None:
             cfg["duration"] = 6144
+        if r.random() < 0.4:
+            # ranges are changed while the run goes on (before and after a node's first transmission, up and down):
+            # what counts for a message is the sender's range at the moment it is sent
+            scn["rangeChanges"] = True
+            scn["profile"]["w"] = dict(scn["profile"]["w"], setRange=2.5)
+            scn["profile"]["ranges"] = [1.0e6, 1000.0, 250.0, 150.0, 1.0e6, 60.0, 25.0, 10.0, 0.0]
+            cfg["defaultRange"] = fbits(r.choice([1.0e6, 1.0e6, 60.0, 30.0]))
         return scn
+
+    def run_impl(self, case):
+        from props_motion import run_with_send_positions
+        return run_with_send_positions(case, self.behaviour(case))
+
+    def copies(self, case, impl):
+        """every copy of every accepted send / broadcast issued outside finish, with the verdict 'in range at the send':
+        True (owed a delivery), False (clearly out of range) or None (too close to the boundary to tell)"""
+        from fractions import Fraction
+        cfg = case["cfg"]
+        n = cfg["nNodes"]
+        delay = max(cfg["delay"], 0)
+        rng = [bitsf(cfg["defaultRange"])] * n
+        snaps = {i: s_ for i, s_ in impl.get("sendPos") or []}
+        out = []
+        for c in parse(impl["trace"]):
+            for req, ok, idx in c["reqs"]:
+                if req[0] == "setRange" and ok:
+                    rng[c["n"]] = bitsf(req[1])
+                elif req[0] in ("send", "broadcast") and ok and c["kind"] != "finish":
+                    if req[0] == "send":
+                        d = req[2]
+                        dsts = [d] if (d is not None and d != c["n"] and 0 <= d < n) else []
+                    else:
+                        dsts = [d for d in range(n) if d != c["n"]]
+                    snap = snaps.get(idx)
+                    for d in dsts:
+                        inr = None
+                        R = rng[c["n"]]
+                        if snap is not None and R >= 0:
+                            ps, pd = bitsv3(snap[c["n"]]), bitsv3(snap[d])
+                            margin = sum((Fraction(pd[k]) - Fraction(ps[k])) ** 2 for k in range(3)) - Fraction(R) ** 2
+                            if margin < -1e-6 or (margin == 0 and all(float(x).is_integer() for x in ps + pd)):
+                                inr = True
+                            elif margin > 1e-6:
+                                inr = False
+                        out.append({"src": c["n"], "dst": d, "msg": req[1], "t": c["t"], "due": c["t"] + delay,
+                                    "range": R, "inRange": inr, "changed": R != bitsf(cfg["defaultRange"])})
+        return out
+
+    def delivery_failures(self, case, impl, prefix="C08"):
+        """loss-free: every copy in range exactly once, intact (payload = key), to exactly the addressees, at send+delay"""
+        cfg = case["cfg"]
+        n = cfg["nNodes"]
+        fails = []
+        addressed = defaultdict(list)     # (dst, msg) -> due times of all copies addressed to dst
+        owed = defaultdict(list)          # (dst, msg) -> due times of the copies that were in range at the send
+        desc = {}
+        for cp in self.copies(case, impl):
+            k = (cp["dst"], cp["msg"])
+            addressed[k].append(cp["due"])
+            if cp["inRange"]:
+                owed[k].append(cp["due"])
+                desc[k] = f" (sent by node {cp['src']} at {cp['t']} with range {cp['range']})"
+        got = Counter()
+        ex = afters(impl["trace"])
+        last_time = ex[-1][1] if ex else 0
+        for c in parse(impl["trace"]):
+            if c["kind"] == "packet":
+                k = (c["n"], c["key"])
+                got[k] += 1
+                if k not in addressed:
+                    fails.append((f"{prefix}:wrong-addressee", f"node {c['n']} handled message {c['key']} not addressed to it"))
+                elif c["t"] not in addressed[k]:
+                    fails.append((f"{prefix}:wrong-time", f"message {c['key']} due at {addressed[k]} handled at {c['t']}"))
+            for req, ok, _ in c["reqs"]:
+                if req[0] == "send":
+                    d = req[2]
+                    valid = d is not None and d != c["n"] and 0 <= d < n
+                    if valid and not ok:
+                        fails.append((f"{prefix}:valid-refused", f"send to {d} from {c['n']} raised"))
+                    if not valid and ok:
+                        fails.append((f"{prefix}:invalid-accepted", f"send from {c['n']} to {d} did not raise"))
+                elif req[0] == "broadcast" and not ok:
+                    fails.append((f"{prefix}:valid-refused", f"broadcast from {c['n']} raised"))
+        for k, v in got.items():
+            if v > len(addressed[k]) > 0:
+                fails.append((f"{prefix}:duplicate", f"message {k[1]} handled {v} times on node {k[0]}, addressed to it {len(addressed[k])} times"))
+        # missing deliveries: only those that were due strictly before the last executed instant, or
+        # any when the run ended by exhaustion / by duration with due <= duration
+        D = cfg["duration"]
+        done = completed(case, impl)
+        for k, dues in owed.items():
+            if cfg["maxIter"] is not None:
+                break
+            must = [due for due in dues if due < last_time or (done and (D is None or due <= D))]
+            if got[k] < len(must):
+                fails.append((f"{prefix}:lost", f"message {k[1]} for node {k[0]}{desc[k]}, in range, due at {must}: handled only {got[k]} times"))
+        return fails
 
     def obs(self, case, res):
         cbs = parse(res["trace"])
         return {"deliveries": sorted([c["n"], c["key"], c["t"]] for c in cbs if c["kind"] == "packet"),
-                "commands": sorted([c["n"], c["t"], r[0], r[1]] for c in cbs for r in c["reqs"] if r[0][0] in ("send", "broadcast"))}
+                # (sorted by their text: a destination may be None, which does not compare with a node id)
+                "commands": sorted(([c["n"], c["t"], r[0], r[1]] for c in cbs for r in c["reqs"]
+                                    if r[0][0] in ("send", "broadcast")), key=repr)}
 
     def oracle(self, case, impl):
-        return self.crash_fail(impl) + delivery_failures(case, impl)
+        return self.crash_fail(impl) + self.delivery_failures(case, impl)
 
     def nontrivial(self, case, impl):
         if case["cfg"]["nNodes"] < 3:
@@ -951,6 +1056,16 @@ class C08(SimCheck):
         bc = any(r[0][0] == "broadcast" and r[1] for c in cbs for r in c["reqs"])
         pk = Counter(c["t"] for c in cbs if c["kind"] == "packet")
         return bc and any(v >= 2 for v in pk.values())
+
+    def stats(self, case, impl, acc):
+        super().stats(case, impl, acc)
+        if case.get("rangeChanges"):
+            acc["scenarios_with_range_changes"] = acc.get("scenarios_with_range_changes", 0) + 1
+        for cp in self.copies(case, impl):
+            k = {True: "copies_in_range", False: "copies_out_of_range_not_judged", None: "copies_near_boundary_not_judged"}[cp["inRange"]]
+            acc[k] = acc.get(k, 0) + 1
+            if cp["inRange"] and cp["changed"]:
+                acc["copies_in_range_under_a_changed_range"] = acc.get("copies_in_range_under_a_changed_range", 0) + 1
 
 
 # ------------------------------------------------------------------------------------------------
